@@ -17,10 +17,11 @@ Definition c06_method_of_cfm (m : c06_cfm) : c06_method :=
 Record c06_state_for (c : c06_cfg) (key : list N) (st : c06_state) : Prop := {
   sf_V : c6t_V st = c6_V c;
   sf_key : c6t_key st = key;
-  sf_em : c6t_encmeta st = c6_encmeta c;
-  sf_filters : c6t_filters st = map (fun e => (fst e, c06_method_of_cfm (snd e))) (c6_cf c);
-  sf_stm : c6t_cf_stream st = c06_interpretCF (c6t_filters st) (Some (c6_stmf c));
-  sf_str : c6t_cf_string st = c06_interpretCF (c6t_filters st) (Some (c6_strf c))
+  (* crypt filters exist from V 4 on; before that initialize() leaves the defaults and nothing reads them *)
+  sf_em : 4 <=? c6_V c = true -> c6t_encmeta st = c6_encmeta c;
+  sf_filters : 4 <=? c6_V c = true -> c6t_filters st = map (fun e => (fst e, c06_method_of_cfm (snd e))) (c6_cf c);
+  sf_stm : 4 <=? c6_V c = true -> c6t_cf_stream st = c06_interpretCF (c6t_filters st) (Some (c6_stmf c));
+  sf_str : 4 <=? c6_V c = true -> c6t_cf_string st = c06_interpretCF (c6t_filters st) (Some (c6_strf c))
 }.
 
 (* a well-formed choice: one of the supported schemes, and no /CF entry called Identity (7.6.6: reserved) *)
@@ -114,8 +115,8 @@ Proof.
   unfold c06_default_method in H. rewrite (sf_V _ _ _ Hst).
   destruct (c6_V c <? 4) eqn:E4.
   - inversion H; subst. apply N.ltb_lt in E4. replace (4 <=? c6_V c) with false by (symmetry; apply N.leb_gt; exact E4). reflexivity.
-  - apply N.ltb_ge in E4. replace (4 <=? c6_V c) with true by (symmetry; apply N.leb_le; exact E4).
-    rewrite (sf_str _ _ _ Hst), (sf_filters _ _ _ Hst), (c06_interp_named c _ m Hwf H). apply c06_switch_of_cfm.
+  - apply N.ltb_ge in E4. assert (H4 : 4 <=? c6_V c = true) by (apply N.leb_le; exact E4). rewrite H4.
+    rewrite (sf_str _ _ _ Hst H4), (sf_filters _ _ _ Hst H4), (c06_interp_named c _ m Hwf H). apply c06_switch_of_cfm.
 Qed.
 
 Lemma c06_method_cfm_expected : forall V m,
@@ -207,10 +208,11 @@ Lemma c06_stream_method_iso : forall c key st s m,
 Proof.
   intros c key st s m Hwf Hst Hex Hx H4 H.
   unfold c06_iso_stream_method in H. rewrite Hx, H4 in H.
-  unfold c06_stream_method. rewrite (sf_filters _ _ _ Hst), (sf_em _ _ _ Hst).
+  assert (G4 : 4 <=? c6_V c = true) by (apply N.leb_le; apply N.ltb_ge; exact H4).
+  unfold c06_stream_method. rewrite (sf_filters _ _ _ Hst G4), (sf_em _ _ _ Hst G4).
   assert (Hnone : forall m', c06_named_method c (c6_stmf c) = Some m' ->
             c6t_cf_stream st = c06_method_of_cfm m').
-  { intros m' Hm'. rewrite (sf_stm _ _ _ Hst), (sf_filters _ _ _ Hst). apply c06_interp_named; assumption. }
+  { intros m' Hm'. rewrite (sf_stm _ _ _ Hst G4), (sf_filters _ _ _ Hst G4). apply c06_interp_named; assumption. }
   assert (Hplain : c06_crypt_parm s = None ->
             (if negb (c6_encmeta c) && c6d_rootmeta s then C6eNone else c6t_cf_stream st) = c06_method_of_cfm m).
   { intros Hp. rewrite Hp in H. rewrite andb_comm. destruct (c6d_rootmeta s && negb (c6_encmeta c)).
@@ -299,7 +301,7 @@ Definition c06_f1_sdict : c06_sdict :=
   {| c6d_xref := false; c6d_filter := C6FlName c06_name_crypt; c6d_dparms := C6DpOne C6PmNull; c6d_rootmeta := false |}.
 
 Lemma c06_f1_state_for : c06_state_for c06_f1_cfg (repeat 7 16%nat) c06_f1_state.
-Proof. constructor; reflexivity. Qed.
+Proof. constructor; intros; reflexivity. Qed.
 
 Lemma method_selection_stream_refuted_lemma :
   exists c key st s m, c06_wf_cfg c /\ c06_state_for c key st /\ c06_iso_stream_method c s = Some m /\
